@@ -305,8 +305,21 @@ func enumC14(env *EnumEnv, it *WorkItem) *EnumResult {
 	if env.Tier == "thorough" {
 		depth = 6
 	}
+	phase, expired := "", false
+	over := func() bool {
+		if expired || env.Expired() {
+			if !expired {
+				expired = true
+				res.Exhaustive = false
+				res.Notes = append(res.Notes, fmt.Sprintf("budget reached in phase %q after %d evaluations of this shard; everything before that phase was covered completely", phase, res.Evaluations))
+			}
+			return true
+		}
+		return false
+	}
 	for _, f := range vaultFactories() {
 		// (i) an unencodable request at every action position of every shape
+		phase = f.name + ": unencodable requests"
 		for _, sh := range storeShapes("quick") {
 			if sh.Variant != 0 && env.Tier != "thorough" {
 				continue
@@ -319,7 +332,7 @@ func enumC14(env *EnumEnv, it *WorkItem) *EnumResult {
 			}
 			for pos := 0; pos < nact; pos++ {
 				idx++
-				if idx%it.NShards != it.Shard {
+				if idx%it.NShards != it.Shard || over() {
 					continue
 				}
 				c := createFaultCase{Vault: f.name, Shape: sh, Pos: pos}
@@ -332,32 +345,39 @@ func enumC14(env *EnumEnv, it *WorkItem) *EnumResult {
 				}
 			}
 		}
-		// (iii) all sequences over {Create, Delete, Read} x 3 plans
-		var rec func(prefix []int)
-		rec = func(prefix []int) {
-			if len(prefix) > 0 {
-				idx++
-				if idx%it.NShards == it.Shard && (len(prefix) == depth || prefix[len(prefix)-1]/3 != 2) {
-					c := crudCase{Vault: f.name, Ops: append([]int{}, prefix...)}
-					res.Evaluations++
-					if len(prefix) > 1 {
-						res.Distinct++
+	}
+	// (iii) all sequences over {Create, Delete, Read} x 3 plans, shortest first (a sequence ending in a Read is covered
+	// by its extensions except at the last length)
+	for L := 1; L <= depth; L++ {
+		for _, f := range vaultFactories() {
+			phase = fmt.Sprintf("%s: create/delete/read sequences of length %d", f.name, L)
+			var rec func(prefix []int)
+			rec = func(prefix []int) {
+				if len(prefix) == L {
+					idx++
+					if idx%it.NShards == it.Shard && (L == depth || prefix[len(prefix)-1]/3 != 2) && !over() {
+						c := crudCase{Vault: f.name, Ops: append([]int{}, prefix...)}
+						res.Evaluations++
+						if len(prefix) > 1 {
+							res.Distinct++
+						}
+						r, s, m := checkCrud(c)
+						report(r, s, m, map[string]any{"crud": c})
+						if len(res.Samples) < 3 && len(prefix) == depth && idx%911 == 0 {
+							res.Samples = append(res.Samples, c.String())
+						}
 					}
-					r, s, m := checkCrud(c)
-					report(r, s, m, map[string]any{"crud": c})
-					if len(res.Samples) < 3 && len(prefix) == depth && idx%911 == 0 {
-						res.Samples = append(res.Samples, c.String())
+					return
+				}
+				for op := 0; op < 9; op++ {
+					if expired {
+						return
 					}
+					rec(append(prefix, op))
 				}
 			}
-			if len(prefix) == depth {
-				return
-			}
-			for op := 0; op < 9; op++ {
-				rec(append(prefix, op))
-			}
+			rec(nil)
 		}
-		rec(nil)
 	}
 	return res
 }
